@@ -57,7 +57,8 @@ N_CONSERVED = 71
 
 def run(prog: Program, res: Result) -> None:
     P = "C10"
-    res.rules = ["R1 base helpers are length-exact", "R2 reference-listed optimizers are conserved by construction (LEN classification)"]
+    res.rules = ["R1 base helpers are length-exact", "R2 reference-listed optimizers are conserved by construction (LEN classification)",
+                 "R3 no unguarded `population[-k:]` with k a remainder (k == 0 gives the whole list)"]
     res.undecided = [f"{k}: {v}" for k, v in sorted(UNDECIDED.items())]
     closed_world(prog, res)
     M = prog.modules[f"{PKG}.abstract"]
@@ -169,6 +170,41 @@ def run(prog: Program, res: Result) -> None:
             else:
                 res.errors.append(f"{ci.name}: population write `{w.text(70)}` at {w.loc()} has a shape the LEN domain does not cover "
                                   f"({why}); the optimizer was conserved by construction in the reference table")
+    # ------------------------------------------------------------------ R3 `pop[-k:]` with a remainder k that can be 0
+    # `x[-k:]` is the *whole* list for k == 0, not the empty one.  A bound computed as a remainder (`a % b`) is 0 for every
+    # population size that divides evenly; unless the slice is guarded by a test of k, the population grows by a full copy.
+    n_neg = 0
+    for fi in prog.all_functions():
+        if fi.cls is None or not prog.is_subclass(fi.cls, ABSTRACT):
+            continue
+        for n in own_nodes(fi):
+            if not (isinstance(n, ast.Subscript) and isinstance(n.slice, ast.Slice) and n.slice.upper is None and n.slice.step is None
+                    and isinstance(n.slice.lower, ast.UnaryOp) and isinstance(n.slice.lower.op, ast.USub)):
+                continue
+            if dotted(n.value) != "self._population" and not (isinstance(n.value, ast.Name) and dotted(origin(fi.node, n.value)) == "self._population"):
+                continue
+            n_neg += 1
+            k = n.slice.lower.operand
+            ksrc = origin(fi.node, k) if isinstance(k, ast.Name) else k
+            if not (isinstance(ksrc, ast.BinOp) and isinstance(ksrc.op, ast.Mod)):
+                continue
+            ktxt = norm(k)
+            from ..sem import path_conditions
+            guarded = False
+            for (t, pol) in path_conditions(fi.node, n):
+                tt = norm(t)
+                if ktxt in tt and pol and (tt == ktxt or any(op in tt for op in ("!= 0", "> 0", ">= 1"))):
+                    guarded = True
+                if ktxt in tt and not pol and any(op in tt for op in ("== 0", "< 1", "<= 0")) or (not pol and tt == f"not {ktxt}"):
+                    guarded = True
+            key = construct_key(prog, n, fi.module)
+            res.ob(guarded, f"{fi.module.relpath}:{n.lineno} `{norm(n, 50)}` guarded by a test of `{ktxt}`" if guarded else None, key)
+            if not guarded:
+                bad("R3-remainder-slice-can-be-whole", n,
+                    f"`{norm(n, 60)}` in {fi.qualname}: `{ktxt}` is the remainder `{norm(ksrc, 40)}`, which is 0 whenever the sizes "
+                    f"divide evenly, and `x[-0:]` is the whole population - the generation then gains a full copy of itself",
+                    mod=fi.module)
+    res.count("negative-tail-slices-of-population", n_neg)
     res.count("population-write-sites", n_writes)
     res.count("conserved-by-construction", conserved)
     res.floor("population-write-sites", 100)
@@ -216,6 +252,10 @@ _W = "pyvolutionary/whales/whales_optimization.py"
 _G = "pyvolutionary/grey_wolf/grey_wolf_optimization.py"
 _CO = "pyvolutionary/coati/coati_optimization.py"
 VARIANTS = [
+    V("residual-group-guard-dropped", _A, "        if residual != 0:\n            groups.append([agent.model_copy() for agent in self._population[-residual:]])",
+      "        groups.append([agent.model_copy() for agent in self._population[-residual:]])", "C10.R3"),
+    V("twin-residual-guard-truthiness", _A, "        if residual != 0:\n            groups.append([agent.model_copy() for agent in self._population[-residual:]])",
+      "        if residual:\n            groups.append([agent.model_copy() for agent in self._population[-residual:]])", None),
     V("filter-in-population-comprehension", _W, "        self._population = [evolve(whale) for whale in self._population]",
       "        self._population = [evolve(whale) for whale in self._population if whale.cost < 1e300]", "C10.R2"),
     V("trim-one-short", _A, "        self._population = sort_and_trim(self._population, self._config.population_size)",
